@@ -40,6 +40,9 @@ struct vf_src {
 	struct vf_ctx *ctx;
 	int fail_at;		/* read index at which to fail (-1 none) */
 	int fail_errno;
+	long soft_at;		/* byte position at which the source reports end of input once and then
+				 * goes on (a terminal after ^D, a file that has grown); -1 none */
+	int soft_done;
 	int nreads;
 };
 
@@ -420,6 +423,15 @@ static long vf_src_read(struct vf_src *s, char *buf, size_t max)
 		return -1;
 	}
 	left = s->n - s->pos;
+	if (s->soft_at >= 0 && !s->soft_done) {
+		if ((long) s->pos == s->soft_at) {
+			s->soft_done = 1;
+			vf_puts(c, "# soft end of input\n");
+			return 0;
+		}
+		if ((long) s->pos < s->soft_at)
+			left = (size_t) s->soft_at - s->pos;
+	}
 	if (left == 0 || max == 0)
 		return 0;
 	k = vf_chunk(c, max);
@@ -435,6 +447,7 @@ static long vf_src_read(struct vf_src *s, char *buf, size_t max)
 static VF_UNUSED void vf_rewind(struct vf_ctx *c, int i)
 {
 	c->src[i].pos = 0;
+	c->src[i].soft_done = 0;
 	if (c->src[i].fp) {
 		clearerr(c->src[i].fp);
 		if (c->flags & 2) {
@@ -584,6 +597,7 @@ static VF_UNUSED void vf_load(struct vf_ctx *c, const char *pack, const char *lo
 		c->src[i].id = (int) i;
 		c->src[i].ctx = c;
 		c->src[i].fail_at = -1;
+		c->src[i].soft_at = -1;
 	}
 	c->nstr = (int) vf_rd32(f);
 	if (c->nstr > VF_MAXSTR)
@@ -602,7 +616,9 @@ static VF_UNUSED void vf_load(struct vf_ctx *c, const char *pack, const char *lo
 	nf = vf_rd32(f);
 	for (i = 0; i < nf; ++i) {
 		uint32_t s = vf_rd32(f), at = vf_rd32(f), en = vf_rd32(f);
-		if (s < (uint32_t) c->nsrc) {
+		if (s < (uint32_t) c->nsrc && en == 0xFFFFu) {
+			c->src[s].soft_at = (long) at;
+		} else if (s < (uint32_t) c->nsrc) {
 			c->src[s].fail_at = (int) at;
 			c->src[s].fail_errno = (int) en;
 		}
